@@ -6,14 +6,15 @@ for m in sorted(glob.glob('/verif/seeded/*/meta.json')):
     d=json.load(open(m))
     c=d['confirmed']
     ok = c['build_default']=='ok' and c['build_verif_hooks']=='ok' and c['existing_suite_with_mutation'].startswith('59 passed 0') and c['demo_with_mutation']=='fail' and c['demo_without_mutation']=='pass'
-    det=d.get('detected_by',[])
+    det=d.get("detected_by",[])
+    dt=d.get("detected_by_thorough",[])
     prop=d['property']
     clause=''
     ck=d['checks_quick'].get(prop,{})
     if ck.get('first_violation'):
         clause=ck['first_violation'].split('::')[0].replace('violation:','').strip()
-    rows.append((d['id'],prop,d.get('summary',''),'yes' if ok else 'NO',', '.join(sorted(det)) or '-', clause, d.get('note','')))
-print('| id | property | change (one line) | confirmed (builds, 59 tests pass, demo fails/passes) | quick checks that exit 1 | clause reported by the property\'s own check | note |')
-print('|---|---|---|---|---|---|---|')
+    rows.append((d['id'],prop,d.get('summary',''),'yes' if ok else 'NO',', '.join(sorted(det)) or '-', ', '.join(sorted(dt)) or '', clause, d.get('note','')))
+print('| id | property | change (one line) | confirmed (builds, 59 tests pass, demo fails/passes) | quick checks that exit 1 | thorough only | clause reported by the property\'s own quick check | note |')
+print('|---|---|---|---|---|---|---|---|')
 for r in rows:
     print('| '+' | '.join(r)+' |')
